@@ -860,6 +860,11 @@ impl KotoVm {
                             _ => KValue::Str(error.to_string().into()),
                         };
 
+                        // A failed call may have truncated the stack below this frame's registers
+                        if self.registers.len() < self.min_frame_registers {
+                            self.registers
+                                .resize(self.min_frame_registers, KValue::Null);
+                        }
                         self.set_register(recover_register, catch_value);
                         self.set_ip(ip);
                     }
